@@ -19,7 +19,8 @@
 // two is the state invariant `write_handles_unlocked` (every open handle carrying write lock data points at an unlocked
 // substate): established by the open guards on Ok, kept by write/set/remove, BROKEN by field_lock / key_value_entry_lock for
 // the handle they are called on (contract: `write_handles_unlocked_except`) and re-established by closing that handle
-// (lemma_close_restores, using the kernel's writer exclusivity, C13). See props.frag.json for what this means.
+// (lemma_close_restores, using the kernel's writer exclusivity, C13). The sequence lock; write through the SAME still-open handle is therefore
+// outside the proof, and on the real engine it unlocks the field: finding_replay/OUTPUT.txt. See props.frag.json.
 use vstd::prelude::*;
 verus! {
 /*@include shims/rt.rs @*/
